@@ -10,6 +10,8 @@ def ev(pid):
     p = os.path.join(VERIF, "evidence", pid + ".json")
     return json.load(open(p)) if os.path.exists(p) else None
 
+TH = json.load(open(os.path.join(HERE, "thorough_measured.json")))
+
 def harness_table():
     out = []
     ready = set(open(os.path.join(HERE, "ready.txt")).read().split()) | {"C06", "C07", "C11", "C14", "C15", "C17", "C18"}
@@ -31,7 +33,7 @@ def harness_table():
                 continue
             seen.add(tag)
             h = per.get(tag)
-            meas = ("%s, %.0f s, %s steps, solver %s s" % (h.get("status"), h.get("wall_s") or 0, h.get("ssa_steps"), h.get("solver_s"))) if h else ("measured out of reach (kept for reference)" if j.tier == "x" else "see section 10 notes")
+            meas = ("%s, %.0f s, %s steps, solver %s s" % (h.get("status"), h.get("wall_s") or 0, h.get("ssa_steps"), h.get("solver_s"))) if h else TH.get(tag, "kept for reference, not verified to completion in the final session" if j.tier == "x" else "not re-measured individually")
             out.append("| `%s` | %s | %s | %s |" % (tag, {"q": "quick", "t": "thorough", "x": "-"}[j.tier], j.desc.replace("|", "\\|"), meas))
         if pid == "C20":
             out.append("| (same 13 harnesses under the other 6 feature subsets) | thorough | | |")
